@@ -154,7 +154,11 @@ def shard_main(pid, tier, seed, i, n):
                 # this shard has run its whole share of the enumerated block that ends here
                 acc.exhaustive_done[case['name']] = True
                 continue
+            env.apply_case_env(case, idx)
             case = dec(json.loads(json.dumps(enc(case))))   # what a replay would see
+            if isinstance(case, dict) and case.get('_env'):
+                for k_ in case['_env']:
+                    acc.count2('case_env', k_)
             acc.evaluations += 1
             try:
                 mod.run_case(case, acc)
@@ -424,6 +428,7 @@ def replay_main(pid, path):
     mod = importlib.import_module('vf.props.' + pid.lower())
     rec = json.load(open(path))
     case = dec(rec['case'])
+    env.apply_case_env(case)
     acc = Acc()
     acc.evaluations = 1
     mod.run_case(case, acc)
